@@ -4,8 +4,8 @@ from common import *
 import decl, gen, pktcases, pktprops
 
 PID = 'C03'
-TARGETS = ['Properties/C03.vo', 'Bridge/IntBridge.vo', 'Bridge/DataBridge.vo', 'Bridge/CodegenBridge.vo']
-KERNELS = ['G6_int', 'G8_data', 'G11_codegen']
+TARGETS = ['Properties/C03.vo', 'Bridge/IntBridge.vo', 'Bridge/DataBridge.vo', 'Bridge/CodegenBridge.vo', 'Bridge/PlumbingBridge.vo']
+KERNELS = ['G6_int', 'G8_data', 'G11_codegen', 'G17_builder']
 PROP_FILE = 'Properties/C03.v'
 
 
